@@ -220,6 +220,10 @@ class RunModel(Analysis):
             return True
         # effect-free helper: worth walking only when its value is used
         if func.is_async:
+            if any(isinstance(n, ast.Return) and n.value is not None
+                   and not (isinstance(n.value, ast.Constant) and n.value.value is None)
+                   for n in ast.walk(func.node)):
+                return True         # it computes something for its caller (e.g. a verdict over the done tasks)
             self.skipped.add(func.qualname)
             return False
         return True
